@@ -52,6 +52,8 @@ THEOREMS = [
     'C08_call_time_resolution_answers',
     'C08_created_query_unresolved',
     'C08_unstarted_query_sees_engine_of_first_next',
+    'C08_nexts_are_schedule',
+    'C08_history_call_time_resolution',
     'C08_drain_is_constant_schedule']
 FUEL = 12
 LIM = 14
